@@ -116,9 +116,20 @@ class WriteSpy:
 # ---- stage-level fault injection --------------------------------------------------------------------
 
 
+class InjectedInterrupt(KeyboardInterrupt):
+    """Ctrl-C while a stage runs (a BaseException: `except Exception` does not see it)."""
+
+
+class InjectedExit(SystemExit):
+    pass
+
+
+FAULT_TYPES = {"Exception": InjectedFault, "KeyboardInterrupt": InjectedInterrupt, "SystemExit": InjectedExit}
+
+
 @contextlib.contextmanager
-def stage_fault(tag, case):
-    """Make the entry point of the stage `tag` raise InjectedFault."""
+def stage_fault(tag, case, exc=InjectedFault):
+    """Make the entry point of the stage `tag` raise `exc` (InjectedFault by default)."""
     import importlib
 
     comp = importlib.import_module("nuspacesim.compute")
@@ -126,7 +137,7 @@ def stage_fault(tag, case):
     from nuspacesim.simulation.geometry.region_geometry import RegionGeom, RegionGeomToO
 
     def boom(*a, **k):
-        raise InjectedFault(f"injected: stage {tag} fails")
+        raise exc(f"injected: stage {tag} fails")
 
     geom_cls = RegionGeomToO if case["mode"] == "Target" else RegionGeom
     targets = {
@@ -295,15 +306,17 @@ def body_raise(case):
             if "stage" in kinds and not tag.endswith("_meta"):
                 out = os.path.join(tmp, f"s{k}" + case.get("ext", ".fits"))
                 spy = WriteSpy(out)
-                with stage_fault(tag, case):  # (patching errors are harness errors: outside the try)
+                exc = FAULT_TYPES[case.get("exc", "Exception")]
+                with stage_fault(tag, case, exc):  # (patching errors are harness errors: outside the try)
                     try:
                         run(case, out, True, spy)
-                    except InjectedFault:
+                    except exc:
                         pass
                     except Exception as e:  # noqa: BLE001
                         raise Violation(f"a failure in stage '{tag}' surfaced as {type(e).__name__}: {e}") from e
                     else:
                         raise Violation(f"stage '{tag}' raised but compute() returned normally")
+                labels.add("fault_" + case.get("exc", "Exception"))
                 _check_left(out, snaps, k, f"stage '{tag}' (store {k + 1} of {n}) raised")
                 labels.add("stage_fault")
             if 1 <= k < n - 1:
@@ -322,6 +335,23 @@ def body_raise(case):
             run(case, deep, False, WriteSpy(deep))
         after = listing()
         require(after == before, f"intermediate writing disabled, but the simulation created {[os.path.relpath(x, tmp) for x in after if x not in before]}")
+        # ... also when a stage is interrupted (Ctrl-C, an error): still nothing on disk
+        stage_tags = [t for _, _, t in model if not t.endswith("_meta")]
+        if stage_tags:
+            tag = stage_tags[case["picks"][0] % len(stage_tags)]
+            exc = FAULT_TYPES[case.get("exc", "Exception")]
+            out_i = os.path.join(tmp, "interrupted" + case.get("ext", ".fits"))
+            before = listing()
+            with stage_fault(tag, case, exc):
+                try:
+                    run(case, out_i, False, WriteSpy(out_i))
+                except exc:
+                    pass
+                except Exception as e:  # noqa: BLE001
+                    raise Violation(f"a {exc.__name__} in stage '{tag}' (staging disabled) surfaced as {type(e).__name__}: {e}") from e
+            after = listing()
+            require(after == before, f"intermediate writing disabled and stage '{tag}' interrupted by {case.get('exc', 'Exception')}: the simulation left {[os.path.relpath(x, tmp) for x in after if x not in before]} on disk")
+            labels.add("interrupted_with_staging_disabled")
         # ... also when a file of that name already exists: it is left alone
         with open(out, "wb") as f:
             f.write(b"previous content")
@@ -390,7 +420,8 @@ def conf_case(kinds):
             "cloud": c14.cloud_st,
             "optical": st.sampled_from([True, False]),
             "radio": st.sampled_from([True, False, True]),
-            "det": st.sampled_from([33.0, 525.0, 525.0, 2000.0]),
+            "det": st.sampled_from([33.0, 525.0, 525.0, 2000.0, 1.0, 5.0]),
+            "exc": st.sampled_from(["Exception", "KeyboardInterrupt", "KeyboardInterrupt", "SystemExit"]),
             "lat": st.sampled_from([0.3, 0.0]),
             "lon": st.sampled_from([1.1, 0.0]),
             "ra": st.floats(0.0, 2 * math.pi),
